@@ -481,6 +481,10 @@ func (m *ValueMap) UnmarshalJSON(input []byte) error {
 
 	m.Clear()
 	for k, v := range dict {
+		if v == nil {
+			// JSON null: store the null value, never a nil pointer
+			v = NewNullVal()
+		}
 		m.Store(k, v)
 	}
 	return nil
